@@ -626,6 +626,13 @@ def gen_typed(tier, seed_):
                     add('typed', kind, ['crafted', v, pattern, mask], dict(allkw, border=r.choice((0, 1, 4))))
                     if pattern in ('rowcopy', 'colcopy'):
                         add('typed', kind, ['crafted', v, pattern, mask], {'alignment_dark': '#cc0000', 'finder_dark': 'navy', 'border': 0})
+        # visible colours that an implementation might pick as its internal stand-in for "transparent" (the first CSS names, black,
+        # white, #010101) next to a transparent type, given as name, hex and tuple
+        if kind != 'ppm':
+            for clr in ('aliceblue', '#f0f8ff', (240, 248, 255), 'antiquewhite', '#faebd7', 'aqua', '#000', '#fff', '#010101', (255, 255, 254)):
+                add('typed', kind, 1, {'light': clr, 'quiet_zone': None, 'border': 2})
+                add('typed', kind, 'M2', {'dark': clr, 'light': None})
+                add('typed', kind, 2, {'data_dark': clr, 'finder_light': None, 'alignment_dark': 'red'})
         # transparency for single types (PNG / SVG)
         if kind != 'ppm':
             add('typed', kind, 1, {'data_light': None, 'finder_dark': 'red'})
